@@ -225,3 +225,11 @@ Proof. exact XTimeMatcher.ticker_check_sound. Qed.
 Print Assumptions C20_sleep_matcher_sound.
 Print Assumptions C20_sleep_matcher_rejections_genuine.
 Print Assumptions C20_ticker_matcher_sound.
+
+(* Tie to the source: the Go functions the model transcribes still contain exactly the synchronisation operations
+   (select arms, channel operations, goroutine starts, timer/context/sync calls) the model accounts for.
+   Generated/Census.v is re-extracted from the Go source on every run (tools/gofacts/census.go). *)
+From Juniper Require Translated.CensusC20.
+Theorem C20_source_census : Translated.CensusC20.census_expected_C20.
+Proof. exact Translated.CensusC20.census_C20_ok. Qed.
+Print Assumptions C20_source_census.
